@@ -35,6 +35,8 @@ def classOutcome (name : String) : Out :=
   | "update-absent-id" | "remove-absent-id" | "insert-existing-id" | "remove-twice"
   | "insert-oversized-metadata" | "update-oversized-metadata" => applyItem false true
   | "batch-duplicate-and-absent" => batchWrite ds [(16, 2), (16, 2), (16, 2), (16, 2)]
+  -- well-formed creations and deletions; what the deletion does to a running raft group is C18's model
+  | "delete-dataset-under-write-load" => (create 1 ⟨2, 1, 1, 0⟩).1
   -- lookups of unknown / malformed dataset or partition ids are answered with an error before any primitive is reached
   | "unknown-dataset" | "malformed-dataset-id" | "search-partitions-unknown-partition" | "delete-malformed-id"
   | "partition-info-unknown" => .err
